@@ -700,7 +700,8 @@ def decorate(draw, prog, abi=True, rename=True, disable=True, density=4, namespa
                         pat = draw(st.sampled_from(ABI_PATTERNS[:4] + [fresh("fixed_sym_")]))
                         m["attrs"].append('#[diplomat::abi_rename = "%s"]' % pat)
                         placed.append("abi:method" + ("-nopattern" if "{0}" not in pat else ""))
-                    if rename and maybe():
+                    if rename and maybe() and not any("iterator)" in a for a in m["attrs"]):
+                        # (the C++ runtime's iterator adapter calls `next()`: an iterator method of another name is a recorded C09 finding)
                         m["attrs"].append('#[diplomat::attr(%s, rename = "%s")]' % (draw(st.sampled_from(CFG_ATOMS)), fresh("renamed_" + m["name"])))
                         placed.append("rename:method")
                     if disable and maybe() and not any("disable" in a for a in impl["attrs"]):
@@ -795,7 +796,7 @@ def add_special_methods(draw, prog, rate=3):
             kind = it["kind"]
             ref_self = ["ref", None, False] if kind == "opaque" else ["val"]
             mut_self = ["ref", None, True] if kind == "opaque" else None
-            what = draw(st.sampled_from(["prop", "prop", "static-prop", "ctor", "stringifier", "comparison", "indexer", "iterator"]))
+            what = draw(st.sampled_from(["prop", "prop", "static-prop", "ctor", "stringifier", "comparison", "indexer", "iterator", "iterable"]))
             if what == "static-prop" and kind == "opaque" and prog.get("_steer", {}).get("no_static_props_on_opaque"):
                 what = "prop"       # nanobind known finding (C15): steered, probed separately
             pt = ["prim", draw(st.sampled_from(["u8", "i32", "f64", "bool", "u64"]))]
@@ -828,7 +829,16 @@ def add_special_methods(draw, prog, rate=3):
                 iret = {"opt": ["opt", pt, "std"], "plain": pt, "result": ["result", pt, ["unit"], "std"]}[iret]
                 ms = [m("dv_index%d" % k, ref_self, [["i", ["prim", draw(st.sampled_from(["usize", "usize", "u8", "i32", "u64"]))], []]], iret, "indexer")]
             elif what == "iterator" and kind == "opaque":
-                ms = [m("dv_next%d" % k, ["ref", None, True], [], ["opt", pt, "std"], "iterator")]
+                ms = [m("next", ["ref", None, True], [], ["opt", pt, "std"], "iterator")]
+            elif what == "iterable" and kind == "opaque":
+                # the returned opaque gets an `iterator` method if it has none (an iterable without one is a lowering error)
+                targets = [o for o in mod["items"] if o["kind"] == "opaque" and not o.get("lifetimes")
+                           and not any(mm["name"] == "next" and not any("iterator)" in a for a in mm["attrs"]) for im in o["impls"] for mm in im["methods"])]
+                if targets:
+                    tgt = draw(st.sampled_from(targets))
+                    ms = [m("dv_iter%d" % k, ref_self, [], ["box", tgt["name"], []], "iterable")]
+                    if not any("iterator)" in a for im in tgt["impls"] for mm in im["methods"] for a in mm["attrs"]):
+                        tgt["impls"].append({"attrs": [], "methods": [m("next", ["ref", None, True], [], ["opt", pt, "std"], "iterator")]})
             if ms:
                 it["impls"].append({"attrs": [], "methods": ms})
                 placed.append("special:" + what)
